@@ -21,6 +21,16 @@ Theorem C14_dict_refines_map :
 Proof. exact dict_refines_map. Qed.
 Print Assumptions C14_dict_refines_map.
 
+(** [last_val], used by the specification of ToDict, is the LAST value paired with the key:
+    a pair appended at the end wins, and a key has a value iff it occurs *)
+Theorem C14_todict_last_value_wins :
+  forall (K V : Type) (keqb : K -> K -> bool), (forall a b, keqb a b = true <-> a = b) ->
+  forall ss k v,
+    (forall k', last_val K V keqb (ss ++ [(k, v)]) k' = if keqb k' k then Some v else last_val K V keqb ss k') /\
+    (last_val K V keqb ss k = None <-> ~ In k (map fst ss)).
+Proof. exact last_val_is_last. Qed.
+Print Assumptions C14_todict_last_value_wins.
+
 (** the oracle's instance (string keys, integer values, stored order or its reverse) meets the hypotheses *)
 Theorem C14_oracle_dict_instance :
   (forall a b, bytes_eqb a b = true <-> a = b) /\ (forall r i l, Permutation (enum_sz r i l) l).
